@@ -122,6 +122,9 @@ func main() {
 				r.Violation("contract layout: "+filepath.Base(L.Source)+" reads "+f.Name+" at another offset/width than the statement", fmt.Sprintf("%+v want off=%d width=%d", f, w[0], w[1]), f)
 			}
 		}
+		if L.BodyStartVar != L.SigCountVar {
+			r.Violation("contract layout: "+filepath.Base(L.Source)+" computes the start of the signed body from another quantity than the number of signatures the VAA carries", fmt.Sprintf("body start = %d + %s * %d, signature count is read into %s: for a VAA with more signatures than that quantity the contract hashes signature bytes", L.BodyStartC, L.BodyStartVar, L.BodyStartPer, L.SigCountVar), L)
+		}
 		if L.BodyStartC != 6 || L.BodyStartPer != 66 || L.SigStride != 66 || L.SigStart != 6 || !L.DoubleKeccak {
 			r.Violation("contract layout: "+filepath.Base(L.Source)+" header/signature geometry or hash rule differs", fmt.Sprintf("%+v", L), L)
 		}
